@@ -111,19 +111,41 @@ def check_error_context(repo: Repo, res: Result, rule: str) -> None:
         if not keeps:
             res.add(rule, f.qual, "keepends", f"{f.qual} adds up the lengths of `{p_text}.splitlines()` WITHOUT the line ends: the total falls short of len({p_text}) by one per newline, so for an error token near the end of a multi-line source no line is found and the formatter raises ValueError — in warn mode (where every suppressed error is formatted) the template raises instead of warning", f.file, f.line)
     loops = [n for n in walk_no_nested(f.node) if isinstance(n, ast.For) and any(isinstance(x, ast.Name) and x.id in lines_vars for x in ast.walk(n.iter))]
-    ok = False
+    # the scan itself, in the two forms it is written in:
+    #   A  total += len(line); if index < total: break
+    #   B  end = start + len(line); if index < end: break; start = end
+    # checked strictly when recognised (the comparison must be strict: the first line whose end is
+    # beyond the index); any other way of writing the scan is not decided here (only the
+    # keepends clause above is).
+    verdict = None
     for lp in loops:
         line_v = [x.id for x in ast.walk(lp.target) if isinstance(x, ast.Name)]
-        adds = [st for st in ast.walk(lp) if isinstance(st, ast.AugAssign) and isinstance(st.op, ast.Add) and isinstance(st.value, ast.Call) and is_name(st.value.func, "len") and st.value.args and isinstance(st.value.args[0], ast.Name) and st.value.args[0].id in line_v]
-        tests = [n for n in ast.walk(lp) if isinstance(n, ast.If) and isinstance(n.test, ast.Compare) and len(n.test.ops) == 1 and any(is_name(x, p_index) for x in (n.test.left, n.test.comparators[0])) and any(isinstance(b, ast.Break) for b in n.body)]
-        if len(adds) == 1 and tests:
-            t = tests[0].test
-            # index < total   (written either way round; strict)
-            acc = adds[0].target.id if isinstance(adds[0].target, ast.Name) else None
-            lt = (isinstance(t.ops[0], ast.Lt) and is_name(t.left, p_index) and is_name(t.comparators[0], acc)) or (isinstance(t.ops[0], ast.Gt) and is_name(t.left, acc) and is_name(t.comparators[0], p_index))
-            ok = bool(lt)
-    if not ok:
-        res.add(rule, f.qual, "scan", f"{f.qual} must find the line as the first one whose running total of len(line) exceeds the index", f.file, f.line)
+
+        def is_len_line(e) -> bool:
+            return isinstance(e, ast.Call) and is_name(e.func, "len") and e.args and isinstance(e.args[0], ast.Name) and e.args[0].id in line_v
+
+        tests = [n for n in ast.walk(lp) if isinstance(n, ast.If) and isinstance(n.test, ast.Compare) and len(n.test.ops) == 1 and any(is_name(x, p_index) for x in (n.test.left, n.test.comparators[0])) and any(isinstance(b, (ast.Break, ast.Return)) for b in n.body)]
+        if not tests:
+            continue
+        t = tests[0].test
+        other = t.comparators[0] if is_name(t.left, p_index) else t.left
+        if not isinstance(other, ast.Name):
+            continue
+        tot = other.id
+        strict = (isinstance(t.ops[0], ast.Lt) and is_name(t.left, p_index)) or (isinstance(t.ops[0], ast.Gt) and is_name(t.comparators[0], p_index))
+        adds = [st for st in ast.walk(lp) if isinstance(st, ast.AugAssign) and isinstance(st.op, ast.Add) and is_name(st.target, tot) and is_len_line(st.value)]
+        binds = [st for st in ast.walk(lp) if isinstance(st, ast.Assign) and len(st.targets) == 1 and is_name(st.targets[0], tot) and isinstance(st.value, ast.BinOp) and isinstance(st.value.op, ast.Add) and (is_len_line(st.value.right) or is_len_line(st.value.left))]
+        if len(adds) == 1 and not binds:
+            verdict = strict  # form A
+        elif len(binds) == 1 and not adds:
+            b0 = binds[0].value
+            start = b0.left if is_len_line(b0.right) else b0.right
+            carried = isinstance(start, ast.Name) and any(isinstance(st, ast.Assign) and len(st.targets) == 1 and is_name(st.targets[0], start.id) and is_name(st.value, tot) for st in ast.walk(lp))
+            verdict = strict and carried  # form B
+    if verdict is False:
+        res.add(rule, f.qual, "scan", f"{f.qual} must find the line as the first one whose running total of len(line) exceeds the index (strict comparison, one addition of len(line) per line)", f.file, f.line)
+    elif verdict is None:
+        res.sample({"rule": rule, "function": f.qual, "note": "the line scan is written in a form this rule does not read; only the keepends clause was decided"})
 
 
 def run(repo: Repo) -> Result:
